@@ -227,6 +227,13 @@ pub fn note_network(rep: &mut Report, b: &Bound) {
     rep.set("networks", nets);
 }
 
+/// Register a network without listing it individually (large families).
+pub fn note_network_light(rep: &mut Report, b: &Bound) {
+    rep.states += b.total_states() as u64;
+    rep.transitions += b.total_edges() as u64;
+    rep.add_count("networks_in_large_families", 1);
+}
+
 /// Oracle self-check on a network (machinery failure if it does not hold).
 pub fn oracle_self_check(b: &Bound) -> Result<usize, String> {
     let labels = Labels::default();
@@ -249,4 +256,63 @@ pub fn oracle_self_check(b: &Bound) -> Result<usize, String> {
 pub fn names_for(b: &Bound) -> Names {
     let props: Vec<String> = if b.n == 1 { vec![b.spec.vars[0].clone()] } else { vec![b.spec.vars[0].clone(), b.spec.vars[b.n - 1].clone()] };
     Names::user(&props)
+}
+
+/// `F_ops` (DESIGN §2.4): every operator form on EVERY coloured set (and every pair of sets) of a
+/// tiny network, compared with the oracle. `forms` use the labels p, q (wild-cards) and d, e
+/// (domains); for a pair (P, Q) of sets: p := P, q := Q, d := Q, e := P.
+pub fn ops_sweep(rep: &mut Report, b: &Arc<Bound>, forms: &[&str], pairs: bool, ck: Checks) {
+    let nc = b.cols.len();
+    let ns = b.n_states();
+    let bits = nc * ns;
+    assert!(bits <= 10, "ops_sweep only for tiny networks");
+    let all: Vec<Vec<Mask>> = (0..(1u64 << bits)).map(|code| (0..nc).map(|c| (code >> (c * ns)) & ((1u64 << ns) - 1)).collect()).collect();
+    let sym: Vec<biodivine_lib_param_bn::symbolic_async_graph::GraphColoredVertices> = all.iter().map(|m| b.mk_set(m)).collect();
+    let base = NetCtx::new(b.clone(), Labels { wild: vec![all[0].clone(), all[0].clone()], dom: vec![all[0].clone(), all[0].clone()], props: vec![] }, "ops");
+    let fs: Vec<F> = forms.iter().map(|t| crate::formulas::f(t, &base.user)).collect();
+    let n = all.len();
+    let qs: Vec<usize> = if pairs { (0..n).collect() } else { vec![0] };
+    let acc: (u64, u64, Vec<Violation>) = (0..n)
+        .into_par_iter()
+        .map(|pi| {
+            let mut cases = 0u64;
+            let mut nbad = 0u64;
+            let mut bad = vec![];
+            for &qi in &qs {
+                let labels = Labels { wild: vec![all[pi].clone(), all[qi].clone()], dom: vec![all[qi].clone(), all[pi].clone()], props: vec![] };
+                let ctx = base.relabel(labels, &format!("p={:?} q={:?}", all[pi], all[qi]), vec![sym[pi].clone(), sym[qi].clone(), sym[qi].clone(), sym[pi].clone()]);
+                for f in &fs {
+                    cases += 1;
+                    let r = check_formula(&ctx, f, ck, None);
+                    if !r.is_empty() {
+                        nbad += 1;
+                        if bad.len() < 3 {
+                            bad.push(Violation {
+                                case: case_json(&ctx, f, ck),
+                                what: format!("operator sweep: {} on {} with {}: {}", f.show(&ctx.user), b.name, ctx.label_desc, r.iter().map(|(e, w)| format!("{e}: {w}")).collect::<Vec<_>>().join(" | ")),
+                                size: f.size(),
+                            });
+                        }
+                    }
+                }
+            }
+            (cases, nbad, bad)
+        })
+        .reduce(|| (0, 0, vec![]), |mut a, b| {
+            a.0 += b.0;
+            a.1 += b.1;
+            a.2.extend(b.2);
+            a
+        });
+    rep.evaluations += acc.0 * if ck.entries == Entries::Ext2 { 2 } else { 1 };
+    rep.traces_validated += acc.0 * nc as u64;
+    rep.distinct_nontrivial += acc.0;
+    rep.add_count("operator_sweep_cases", acc.0);
+    rep.add_count("operator_sweep_failing_cases", acc.1);
+    let mut v = acc.2;
+    v.truncate(30);
+    rep.violations.extend(v);
+    let mut t = rep.extra.get("operator_sweeps").cloned().unwrap_or(json!([]));
+    t.as_array_mut().unwrap().push(json!({"network": b.name, "all_coloured_sets": n, "pairs": pairs, "forms": forms}));
+    rep.set("operator_sweeps", t);
 }
